@@ -25,6 +25,7 @@ type FuncFacts struct {
 	pdom  map[*ssa.BasicBlock]map[*ssa.BasicBlock]bool // pdom[a][b]: b post-dominates a
 	reach map[*ssa.BasicBlock]map[*ssa.BasicBlock]bool
 	mp    map[[2]ssa.Instruction]bool
+	infeas map[*ssa.BasicBlock]bool
 }
 
 func (p *Prog) Facts(fn *ssa.Function) *FuncFacts {
@@ -345,7 +346,7 @@ func constString(v ssa.Value) (string, bool) {
 func returnsOf(fn *ssa.Function) []*ssa.Return {
 	var out []*ssa.Return
 	for _, b := range fn.Blocks {
-		if len(b.Instrs) == 0 || b == fn.Recover {
+		if len(b.Instrs) == 0 || b == fn.Recover || blockInfeasible(b) {
 			continue // the recover block is only entered after a recovered panic
 		}
 		if r, ok := b.Instrs[len(b.Instrs)-1].(*ssa.Return); ok {
@@ -1029,4 +1030,82 @@ func (ff *FuncFacts) nilExpand(x ssa.Value, seen map[ssa.Value]bool, depth int) 
 		}
 	}
 	return out
+}
+
+// ---- infeasible blocks ------------------------------------------------------
+
+// blockInfeasible: the necessary conditions of reaching b contradict each
+// other (or a constant condition has the wrong value): b never executes.
+func blockInfeasible(b *ssa.BasicBlock) bool {
+	if activeProg == nil || b == nil || b.Parent() == nil {
+		return false
+	}
+	return activeProg.Facts(b.Parent()).Infeasible(b)
+}
+
+func (ff *FuncFacts) Infeasible(b *ssa.BasicBlock) bool {
+	if r, ok := ff.infeas[b]; ok {
+		return r
+	}
+	if ff.infeas == nil {
+		ff.infeas = map[*ssa.BasicBlock]bool{}
+	}
+	ff.infeas[b] = false // cycles
+	res := false
+	fs := ff.NC(b)
+	for i, f := range fs {
+		if k, ok := f.Cond.(*ssa.Const); ok && k.Value != nil && k.Value.Kind() == constant.Bool {
+			if constant.BoolVal(k.Value) != f.Pol {
+				res = true
+			}
+		}
+		for _, g := range fs[i+1:] {
+			if f.Pol != g.Pol && ff.p.sameCond(f.Cond, g.Cond, 0) {
+				res = true
+			}
+		}
+	}
+	// a block all of whose predecessors are infeasible is infeasible too
+	if !res && len(b.Preds) > 0 && b != b.Parent().Blocks[0] {
+		all := true
+		for _, pr := range b.Preds {
+			if pr == b || !ff.Infeasible(pr) {
+				all = false
+			}
+		}
+		res = all
+	}
+	ff.infeas[b] = res
+	return res
+}
+
+// sameCond: two condition values that are equal whenever both are evaluated:
+// the same SSA value, loads of the same construction-only field of the same
+// object, or the same comparison of such operands.
+func (p *Prog) sameCond(a, b ssa.Value, d int) bool {
+	a, b = unspill(a), unspill(b)
+	if a == b {
+		return true
+	}
+	if d > 3 {
+		return false
+	}
+	if ka, ba, ok := fieldLoad(a); ok {
+		if kb, bb, ok := fieldLoad(b); ok && ka == kb && p.constructionOnly(ka) && objKey(ba) == objKey(bb) {
+			return true
+		}
+		return false
+	}
+	if ca, ok := a.(*ssa.Const); ok {
+		if cb, ok := b.(*ssa.Const); ok {
+			return ca.Value != nil && cb.Value != nil && constant.Compare(ca.Value, token.EQL, cb.Value) || ca.IsNil() && cb.IsNil()
+		}
+		return false
+	}
+	if xa, ok := a.(*ssa.BinOp); ok {
+		if xb, ok := b.(*ssa.BinOp); ok && xa.Op == xb.Op {
+			return p.sameCond(xa.X, xb.X, d+1) && p.sameCond(xa.Y, xb.Y, d+1)
+		}
+	}
+	return false
 }
